@@ -214,3 +214,38 @@ def r_deletecast(db, rep):
             rep.viol("%s#delete-%s-as-%s" % (f.qn, b.split("::")[-1], a.split("::")[-1]), f.nloc(n),
                      "%s deletes a %s through a pointer cast to the unrelated class %s: undefined behaviour (wrong destructor, wrong "
                      "deallocation size), and whatever was meant to be released is not" % (f.qn, b, a), f.qn)
+
+
+@rule("R-RANKIDENT", 8, "a kind whose locateRank is the identity (and whose extractRank is extract(rank)) claims that its IDs are "
+                        "lexicographic ranks: its building constructor then hands out IDs in input order, i.e. nothing on its build path "
+                        "reorders what it stores (sort / stable_sort / qsort / shuffle / reverse). The FM-index sorts suffixes, not strings "
+                        "(its ID order is R-FMMAP's subject) and the Re-Pair compressor orders pairs")
+def r_rankident(db, rep):
+    from rules_dispatch import kinds
+    for k in kinds(db):
+        lr = db.methods_of(k, "locateRank")
+        if not lr or not lr[0].body:
+            continue
+        lr = lr[0]
+        rets = [n for n in lr.live_nodes() if n["k"] == "ReturnStmt" and n.get("value") is not None]
+        ident = len(rets) == 1 and access_path(lr, rets[0]["value"]) == ("param", 0) and \
+            not any(x["k"] in ("CallExpr", "CXXMemberCallExpr") for x in lr.live_nodes())
+        if not ident:
+            continue
+        for c in [c for c in db.methods_of(k) if c.is_ctor and c.params and "Iterator" in c.tstr(c.params[0]["t"])]:
+            clo, inst = db.rta([c])
+            rep.visit(c)
+            rep.inst(c.loc, "%s: locateRank is the identity; %d functions on the build path" % (k, len(clo)))
+            for fid in sorted(clo):
+                g = db.funcs[fid]
+                if g.file.startswith("RePair/Coder/") or g.file.startswith("FMIndex/"):
+                    continue
+                for n in g.calls():
+                    rep.ob()
+                    if n.get("ext") and callee_name(n) in ("sort", "stable_sort", "qsort", "shuffle", "random_shuffle", "reverse", "partial_sort", "nth_element"):
+                        # hash kinds sort an index of table positions, not the order in which IDs are handed out? they do not
+                        # have identity rank operations, so they do not get here
+                        rep.viol("%s#rank-identity-but-reorders:%s" % (k, g.qn), g.nloc(n),
+                                 "%s::locateRank returns its argument, i.e. IDs are taken to be lexicographic ranks, but %s (%s) calls %s while "
+                                 "building: the IDs follow that order, not the input order, and extractRank(k) is not the k-th smallest string" % (
+                                     k, g.qn, " -> ".join(db.chain(clo, fid)[-3:]), callee_name(n)), g.qn)
